@@ -154,7 +154,7 @@ def xrKeys (a : String) : Option (List Nat) :=
   if a == "-" then some [] else (a.splitOn ",").mapM natOfHexKey
 
 def xrCfgOf (leaf : Bool) (variant : String) : Cfg :=
-  { leaf := leaf, staleHigh := variant == "stale", singleMerge := variant == "single" }
+  { leaf := leaf, staleHigh := variant == "stale", singleMerge := variant == "single", highMax := variant == "hmax" }
 
 def extrangeStep (s : XrState) (line : String) : XrState × String :=
   match fields line with
